@@ -263,6 +263,22 @@ Decide(pol, ev) ==
   IF ms = {} THEN EncAct(pol.def)
   ELSE EncAct(pol.groups[CHOOSE i \in ms : \A k \in ms : i <= k].act)
 
+\* What the calling thread observes when the running kernel answers its system call with decision d (kernel/seccomp.c
+\* __seccomp_filter), for a call the kernel does not implement (the probe calls: "runs" shows as ENOSYS), with no tracer
+\* attached and no notification listener installed: trace and user_notif then fail the call with ENOSYS, an errno action
+\* returns its data bits, trap delivers SIGSYS to the thread, kill_thread ends the thread and leaves the process, and
+\* kill_process - like every value the kernel has no case for - ends the whole process with SIGSYS.
+Decisions == {EncAct(a) : a \in NamedActions \cup DataActions \cup {"user_notif", "unnamed"}} \cup {"errno|ENOSYS"}
+KernelObserves(d) ==
+  CASE d \in {"allow", "log", "trace", "trace+42", "user_notif", "errno|ENOSYS", "errno+38"} -> "errno:38"
+    [] d = "errno|EPERM" -> "errno:1"
+    [] d = "errno+2" -> "errno:2"
+    [] d = "errno+13" -> "errno:13"
+    [] d = "errno+4094" -> "errno:4094"
+    [] d \in {"trap", "trap+6"} -> "sigsys"
+    [] d = "kill_thread" -> "thread-gone"
+    [] d \in {"kill_process", "unnamed"} -> "killed"
+
 \* The same policy compiled for the x32 description of the architecture (arch.X32: the audit id of x86_64, the table of
 \* the x32 ABI, SeccompMask = the x32 bit).  Every number in the rules then carries the x32 bit, and the guard in front of
 \* the rules answers every number that carries it with ENOSYS: no rule can match any event, so a native event gets the
